@@ -5,8 +5,6 @@ C08 — property theorems (DESIGN.md §4 C08).
  2. for EVERY history of events and every node the cached sums equal the from-scratch
     computation over the node's current report and its currently assigned pods      `cache_eq_rebuild`, `cache_eq_from_report`
     (order of the pods irrelevant: `scratch_perm`; closed form: `scratch_eq_sum`)
-    — and the one place where this is false on the code as written: a report without UpdateTime
-      keeps the previous report's time                                               `report_without_update_time_counterexample`
  3. Filter: pass only if every thresholded resource is within the rounded percentage `filter_pass_within`, `filter_pass_exact`,
     on the from-scratch estimate of the reached state                                `filter_pass_sound`
  4. missing / expired metrics behave as the switch table says                        `filter_no_metric`, `filter_expired_table`, `filter_expired_only_if`
@@ -113,10 +111,10 @@ theorem foldl_addPod_erase (ctx : Ctx) (q : PodInfo → Bool) (ps : List PodInfo
     by_cases hq : q p = true
     · simp only [List.find?_cons, hq] at h
       cases h
-      simp only [List.eraseP_cons, hq, List.foldl_cons, if_true]
+      simp only [List.eraseP_cons, hq, List.foldl_cons, cond_true]
       rw [addPod_eq, foldl_addPod_add, deletePod_eq, Sums.sub_add_cancel]
     · simp only [List.find?_cons, hq] at h
-      simp only [List.eraseP_cons, hq, List.foldl_cons]
+      simp only [List.eraseP_cons, hq, List.foldl_cons, cond_false]
       exact ih _ h
 
 theorem eraseP_of_find_none (q : PodInfo → Bool) (ps : List PodInfo) (h : ps.find? q = none) :
@@ -153,7 +151,7 @@ theorem scratch_perm (cfg : Cfg) (m : Metric) (ut : Option Int) (ps qs : List Po
 node's `updateTime` is the report's whenever the report carries one. -/
 def Inv (cfg : Cfg) (n : Node) : Prop :=
   ∀ m, n.metric = some m →
-    n.sums = scratch cfg m n.updateTime n.pods ∧ (m.hasUpd = true → n.updateTime = some m.updT)
+    n.sums = scratch cfg m n.updateTime n.pods ∧ n.updateTime = reportTime m
 
 theorem inv_empty (cfg : Cfg) : Inv cfg emptyNode := by
   intro m h; simp [emptyNode] at h
@@ -194,8 +192,7 @@ theorem inv_setMetric (cfg : Cfg) (n : Node) (m : Metric) : Inv cfg (n.setMetric
   intro m' hm'
   simp only [Node.setMetric, Option.some.injEq] at hm'
   subst hm'
-  refine ⟨rfl, ?_⟩
-  intro hu; simp [Node.setMetric, hu]
+  exact ⟨rfl, rfl⟩
 
 theorem inv_deleteMetric (cfg : Cfg) (n : Node) : Inv cfg n.deleteMetric := by
   unfold Node.deleteMetric
@@ -274,22 +271,25 @@ theorem cache_eq_rebuild (cfg : Cfg) (evs : List Ev) (k : Nat) (m : Metric)
     ((run cfg evs).get k).sums = scratch cfg m ((run cfg evs).get k).updateTime ((run cfg evs).get k).pods :=
   (cinv_run cfg evs k m hm).1
 
-/-- … and when the report carries an UpdateTime nothing but the report and the pods enters. -/
+/-- **the estimate is a function of the current report and the assigned pods only** (the kept
+`updateTime` is the report's; a report without Status.UpdateTime resets it to the zero time — this
+is what the repair 13701f3 of AddOrUpdateNodeMetric established; before it the previous report's time
+survived and this theorem was false, finding `C08:cache-drift:report-without-update-time`). -/
 theorem cache_eq_from_report (cfg : Cfg) (evs : List Ev) (k : Nat) (m : Metric)
-    (hm : ((run cfg evs).get k).metric = some m) (hu : m.hasUpd = true) :
-    ((run cfg evs).get k).sums = scratch cfg m (some m.updT) ((run cfg evs).get k).pods := by
+    (hm : ((run cfg evs).get k).metric = some m) :
+    ((run cfg evs).get k).sums = scratch cfg m (reportTime m) ((run cfg evs).get k).pods := by
   have h := cinv_run cfg evs k m hm
-  rw [← h.2 hu]; exact h.1
+  rw [← h.2]; exact h.1
 
-/-
-FULL STATEMENT (not provable on the code as written):
-  ∀ cfg evs k m, ((run cfg evs).get k).metric = some m →
-    ((run cfg evs).get k).sums = scratch cfg m (if m.hasUpd then some m.updT else none) ((run cfg evs).get k).pods
-i.e. the estimate is a function of the current report and the assigned pods only.  It fails for a
-report without Status.UpdateTime that follows one with it: AddOrUpdateNodeMetric keeps the old
-`updateTime`.  Proved part: `cache_eq_from_report` (reports with UpdateTime) and `cache_eq_rebuild`
-(relative to the node's kept updateTime); the witness of the gap follows.
--/
+/-- a fresh cache fed the report and then the same pods one by one computes the same thing:
+`scratch` IS "metric first, then addPod for every pod". -/
+theorem fresh_cache_eq (cfg : Cfg) (m : Metric) (ps : List PodInfo) :
+    (ps.foldl Node.addOrUpdatePod (emptyNode.setMetric cfg m)).metric = some m := by
+  have : ∀ (n : Node), n.metric = some m → (ps.foldl Node.addOrUpdatePod n).metric = some m := by
+    induction ps with
+    | nil => intro n h; exact h
+    | cons p ps ih => intro n h; exact ih _ (by simpa [Node.addOrUpdatePod] using h)
+  exact this _ rfl
 
 def exactFloat : FloatOps :=
   { scale := fun q f => (q * f + 50) / 100, roundPct := fun e a => (200 * e + a) / (2 * a) }
@@ -308,9 +308,10 @@ def reportA : Metric :=
 def reportB : Metric :=
   { reportA with hasUpd := false, updT := 0, pods := [⟨1, false, 0, [3050]⟩] }
 
-theorem report_without_update_time_counterexample :
+/-- the former failing history now yields the from-scratch value 5280 − 3050. -/
+theorem report_without_update_time_regression :
     let n := (run cfgW [Ev.metric 1 reportA, Ev.metric 1 reportB, Ev.add podW 0]).get 1
-    n.metric = some reportB ∧ n.sums.nodeDelta = [0] ∧ (scratch cfgW reportB none n.pods).nodeDelta = [2230] := by
+    n.metric = some reportB ∧ n.sums.nodeDelta = [2230] := by
   decide
 
 /-! ### 3. Filter -/
@@ -369,46 +370,27 @@ structure RoundOK (f : Int → Int → Int) : Prop where
   lo : ∀ e a, 0 < a → 0 ≤ e → 200 * e - a ≤ 2 * a * f e a
   hi : ∀ e a, 0 < a → 0 ≤ e → 2 * a * f e a ≤ 200 * e + a
 
-/-- what the filter decides with, as a function of the cache (mirrors the `let`s of `filter`). -/
-def selProfile (cfg : Cfg) (q : FilterQ) : Bool × Vec × Option AggProfile :=
-  let prof := nodeProfile cfg.d (argsProfile cfg.d q.args) q.customKind q.custom
-  let prodPod := !vEmpty prof.prod && q.pod.cls == 1
-  if prodPod then (true, prof.prod, none) else
-    match prof.agg with
-    | some a => (false, a.thr, some a)
-    | none => (false, prof.usage, none)
-
-def selTyp (s : Option AggProfile) : Nat := match s with | some a => a.typ | none => 0
-def selDur (s : Option AggProfile) : Nat := match s with | some a => a.dur | none => 0
-
-/-- the expiry switch is engaged for this query and report. -/
-def expirySkip (q : FilterQ) (m : Metric) : Bool :=
-  q.filterExpired == 1 && q.hasExp && metricExpired m q.expSec
+/-- the estimate Filter reads for this query. -/
+def existingFor (cfg : Cfg) (n : Node) (q : FilterQ) : Option (Metric × Vec) :=
+  estimatedOfExisting cfg n (selProfile cfg q).1 (selTyp (selProfile cfg q).2.2) (selDur (selProfile cfg q).2.2)
 
 theorem filter_unfold (cfg : Cfg) (c : Cache) (q : FilterQ) (hn : q.hasNode = true) (hd : q.daemon = false)
     (ht : vEmpty (selProfile cfg q).2.1 = false) :
     filter cfg c q =
-      match estimatedOfExisting cfg (c.get q.node) (selProfile cfg q).1 (selTyp (selProfile cfg q).2.2) (selDur (selProfile cfg q).2.2) with
-      | none => 0
-      | some (m, est) =>
-        if expirySkip q m then (if q.enableWhenExpired == 0 then 3 else 0)
-        else if !m.hasInfo then 0
-        else if exceeds cfg.fl (selProfile cfg q).2.1 (vadd est (estimateVec cfg q.pod)) (allocOf q)
-          then (if (selProfile cfg q).2.2.isSome then 2 else 1) else 0 := by
-  unfold filter selProfile expirySkip selTyp selDur at *
-  simp only [hn, hd, Bool.not_true, Bool.false_eq_true, if_false]
-  split at ht <;> rename_i hp
-  · simp only [hp, if_true] at ht ⊢
-    simp only [ht, Bool.false_eq_true, if_false]
-    rfl
-  · simp only [hp, Bool.false_eq_true, if_false] at ht ⊢
-    split at ht <;> rename_i ha
-    · simp only [ha] at ht ⊢
-      simp only [ht, Bool.false_eq_true, if_false]
-      rfl
-    · simp only [ha] at ht ⊢
-      simp only [ht, Bool.false_eq_true, if_false]
-      rfl
+      verdict cfg q (selProfile cfg q).2.1 (selProfile cfg q).2.2.isSome (existingFor cfg (c.get q.node) q) := by
+  simp [filter, existingFor, hn, hd, ht]
+
+theorem existing_none (cfg : Cfg) (n : Node) (p : Bool) (t d : Nat) (h : n.metric = none) :
+    estimatedOfExisting cfg n p t d = none := by
+  simp [estimatedOfExisting, h]
+
+theorem existing_some (cfg : Cfg) (n : Node) (p : Bool) (t d : Nat) (m : Metric) (h : n.metric = some m) :
+    ∃ est, estimatedOfExisting cfg n p t d = some (m, est) := by
+  unfold estimatedOfExisting
+  simp only [h]
+  split
+  · exact ⟨_, rfl⟩
+  · split <;> exact ⟨_, rfl⟩
 
 theorem filter_daemonset (cfg : Cfg) (c : Cache) (q : FilterQ) (hn : q.hasNode = true) (hd : q.daemon = true) :
     filter cfg c q = 0 := by
@@ -416,14 +398,7 @@ theorem filter_daemonset (cfg : Cfg) (c : Cache) (q : FilterQ) (hn : q.hasNode =
 
 theorem filter_no_thresholds (cfg : Cfg) (c : Cache) (q : FilterQ) (hn : q.hasNode = true)
     (ht : vEmpty (selProfile cfg q).2.1 = true) : filter cfg c q = 0 := by
-  unfold filter selProfile at *
-  simp only [hn, Bool.not_true, Bool.false_eq_true, if_false]
-  split
-  · rfl
-  · split at ht <;> rename_i hp
-    · simp only [hp, if_true] at ht ⊢; simp [ht]
-    · simp only [hp, Bool.false_eq_true, if_false] at ht ⊢
-      split at ht <;> rename_i ha <;> simp only [ha] at ht ⊢ <;> simp [ht]
+  simp [filter, hn, ht]
 
 /-! ### 4. missing / expired reports: the configured switch table -/
 
@@ -435,7 +410,7 @@ theorem filter_no_metric (cfg : Cfg) (c : Cache) (q : FilterQ) (hn : q.hasNode =
   · by_cases ht : vEmpty (selProfile cfg q).2.1 = true
     · exact filter_no_thresholds cfg c q hn ht
     · rw [filter_unfold cfg c q hn (by simpa using hd) (by simpa using ht)]
-      simp [estimatedOfExisting, hm]
+      simp [existingFor, existing_none _ _ _ _ _ hm, verdict]
 
 /-- with thresholds configured and expiry filtering engaged, an expired (or time-less) report yields
 "rejected: metric expired" exactly when EnableScheduleWhenNodeMetricsExpired is false, else the node is skipped. -/
@@ -444,9 +419,8 @@ theorem filter_expired_table (cfg : Cfg) (c : Cache) (q : FilterQ) (m : Metric)
     (hm : (c.get q.node).metric = some m) (hx : expirySkip q m = true) :
     filter cfg c q = if q.enableWhenExpired == 0 then 3 else 0 := by
   rw [filter_unfold cfg c q hn hd ht]
-  unfold estimatedOfExisting
-  simp only [hm]
-  split <;> (try split) <;> simp [hx]
+  obtain ⟨est, he⟩ := existing_some cfg (c.get q.node) (selProfile cfg q).1 (selTyp (selProfile cfg q).2.2) (selDur (selProfile cfg q).2.2) m hm
+  simp [existingFor, he, verdict, hx]
 
 /-- "rejected: metric expired" is returned only under exactly those settings. -/
 theorem filter_expired_only_if (cfg : Cfg) (c : Cache) (q : FilterQ) (h : filter cfg c q = 3) :
@@ -459,32 +433,22 @@ theorem filter_expired_only_if (cfg : Cfg) (c : Cache) (q : FilterQ) (h : filter
   · rw [filter_no_thresholds cfg c q hn ht] at h; cases h
   rw [filter_unfold cfg c q hn (by simpa using hd) (by simpa using ht)] at h
   cases hm : (c.get q.node).metric with
-  | none => simp [estimatedOfExisting, hm] at h
+  | none => simp [existingFor, existing_none _ _ _ _ _ hm, verdict] at h
   | some m =>
+    obtain ⟨est, he⟩ := existing_some cfg (c.get q.node) (selProfile cfg q).1 (selTyp (selProfile cfg q).2.2) (selDur (selProfile cfg q).2.2) m hm
     refine ⟨m, rfl, ?_⟩
-    unfold estimatedOfExisting at h
-    simp only [hm] at h
-    have key : ∀ est : Vec,
-        (if expirySkip q m then (if q.enableWhenExpired == 0 then 3 else 0)
-         else if !m.hasInfo then 0
-         else if exceeds cfg.fl (selProfile cfg q).2.1 (vadd est (estimateVec cfg q.pod)) (allocOf q)
-           then (if (selProfile cfg q).2.2.isSome then 2 else 1) else 0) = 3 →
-        expirySkip q m = true ∧ q.enableWhenExpired = 0 := by
-      intro est hh
-      by_cases hx : expirySkip q m = true
-      · simp only [hx, if_true] at hh
-        by_cases he : q.enableWhenExpired = 0
-        · exact ⟨rfl, he⟩
-        · simp [he] at hh
-      · simp only [hx, Bool.false_eq_true, if_false] at hh
-        split at hh
-        · cases hh
-        · split at hh
-          · split at hh <;> cases hh
-          · cases hh
-    split at h
-    · exact key _ h
-    · split at h <;> exact key _ h
+    simp only [existingFor, he, verdict] at h
+    by_cases hx : expirySkip q m = true
+    · simp only [hx, if_true] at h
+      by_cases he0 : q.enableWhenExpired = 0
+      · exact ⟨hx, he0⟩
+      · simp [he0] at h
+    · simp only [hx, Bool.false_eq_true, if_false] at h
+      split at h
+      · cases h
+      · split at h
+        · split at h <;> cases h
+        · cases h
 
 /-- **pass ⇒ within threshold.** If a non-daemon-set pod passes on a node that has a report with node
 usage in force, thresholds configured and the expiry switch not engaged, then for every thresholded
@@ -492,12 +456,12 @@ resource with non-zero allocatable the rounded percentage of (estimate of existi
 estimate) is at most the threshold. -/
 theorem filter_pass_within (cfg : Cfg) (c : Cache) (q : FilterQ) (m : Metric) (est : Vec)
     (hn : q.hasNode = true) (hd : q.daemon = false) (ht : vEmpty (selProfile cfg q).2.1 = false)
-    (he : estimatedOfExisting cfg (c.get q.node) (selProfile cfg q).1 (selTyp (selProfile cfg q).2.2) (selDur (selProfile cfg q).2.2) = some (m, est))
+    (he : existingFor cfg (c.get q.node) q = some (m, est))
     (hx : expirySkip q m = false) (hi : m.hasInfo = true)
     (hpass : filter cfg c q = 0) :
     Within (fun t e a => cfg.fl.roundPct e a ≤ t) (selProfile cfg q).2.1 (vadd est (estimateVec cfg q.pod)) (allocOf q) := by
   rw [filter_unfold cfg c q hn hd ht, he] at hpass
-  simp only [hx, hi, Bool.false_eq_true, if_false, Bool.not_true] at hpass
+  simp only [verdict, hx, hi, Bool.false_eq_true, if_false, Bool.not_true] at hpass
   apply (exceeds_false_iff _ _ _ _).mp
   by_cases hex : exceeds cfg.fl (selProfile cfg q).2.1 (vadd est (estimateVec cfg q.pod)) (allocOf q) = true
   · simp only [hex, if_true] at hpass
@@ -507,7 +471,7 @@ theorem filter_pass_within (cfg : Cfg) (c : Cache) (q : FilterQ) (m : Metric) (e
 /-- … and conversely the pod is rejected for usage only if some thresholded resource is above. -/
 theorem filter_reject_only_if_exceeds (cfg : Cfg) (c : Cache) (q : FilterQ)
     (h : filter cfg c q = 1 ∨ filter cfg c q = 2) :
-    ∃ m est, estimatedOfExisting cfg (c.get q.node) (selProfile cfg q).1 (selTyp (selProfile cfg q).2.2) (selDur (selProfile cfg q).2.2) = some (m, est) ∧
+    ∃ m est, existingFor cfg (c.get q.node) q = some (m, est) ∧
       ¬ Within (fun t e a => cfg.fl.roundPct e a ≤ t) (selProfile cfg q).2.1 (vadd est (estimateVec cfg q.pod)) (allocOf q) := by
   by_cases hn : q.hasNode = true
   case neg => simp [filter, hn] at h
@@ -516,12 +480,12 @@ theorem filter_reject_only_if_exceeds (cfg : Cfg) (c : Cache) (q : FilterQ)
   by_cases ht : vEmpty (selProfile cfg q).2.1 = true
   · rw [filter_no_thresholds cfg c q hn ht] at h; omega
   rw [filter_unfold cfg c q hn (by simpa using hd) (by simpa using ht)] at h
-  cases he : estimatedOfExisting cfg (c.get q.node) (selProfile cfg q).1 (selTyp (selProfile cfg q).2.2) (selDur (selProfile cfg q).2.2) with
-  | none => simp [he] at h
+  cases he : existingFor cfg (c.get q.node) q with
+  | none => simp [he, verdict] at h
   | some me =>
     obtain ⟨m, est⟩ := me
     refine ⟨m, est, rfl, ?_⟩
-    simp only [he] at h
+    simp only [he, verdict] at h
     intro hw
     have hex := (exceeds_false_iff _ _ _ _).mpr hw
     simp only [hex, Bool.false_eq_true, if_false] at h
@@ -555,35 +519,25 @@ theorem below_boundary_within (f : Int → Int → Int) (hf : RoundOK f) (t e a 
   omega
 
 /-- **end to end.** For ANY history, a pass on the reached cache means: within the rounded threshold on
-the FROM-SCRATCH estimate (report's usage + Σ contributions of the assigned pods + incoming estimate). -/
+the FROM-SCRATCH estimate (the current report's usage + Σ contributions of the assigned pods, computed
+by `scratch` from the report and the pods alone, + the incoming pod's estimate). -/
 theorem filter_pass_sound (cfg : Cfg) (evs : List Ev) (q : FilterQ) (m : Metric)
     (hn : q.hasNode = true) (hd : q.daemon = false) (ht : vEmpty (selProfile cfg q).2.1 = false)
     (hm : ((run cfg evs).get q.node).metric = some m)
     (hx : expirySkip q m = false) (hi : m.hasInfo = true)
     (hpass : filter cfg (run cfg evs) q = 0) :
-    ∃ est, estimatedOfExisting cfg
-        { (run cfg evs).get q.node with
-          sums := scratch cfg m ((run cfg evs).get q.node).updateTime ((run cfg evs).get q.node).pods }
-        (selProfile cfg q).1 (selTyp (selProfile cfg q).2.2) (selDur (selProfile cfg q).2.2) = some (m, est) ∧
+    ∃ est, existingFor cfg
+        { (run cfg evs).get q.node with sums := scratch cfg m (reportTime m) ((run cfg evs).get q.node).pods } q
+          = some (m, est) ∧
       Within (fun t e a => cfg.fl.roundPct e a ≤ t) (selProfile cfg q).2.1 (vadd est (estimateVec cfg q.pod)) (allocOf q) := by
-  have hs := cache_eq_rebuild cfg evs q.node m hm
+  have hs := cache_eq_from_report cfg evs q.node m hm
   have hnode : ({ (run cfg evs).get q.node with
-      sums := scratch cfg m ((run cfg evs).get q.node).updateTime ((run cfg evs).get q.node).pods } : Node)
+      sums := scratch cfg m (reportTime m) ((run cfg evs).get q.node).pods } : Node)
       = (run cfg evs).get q.node := by
     rw [← hs]
   rw [hnode]
-  cases he : estimatedOfExisting cfg ((run cfg evs).get q.node) (selProfile cfg q).1 (selTyp (selProfile cfg q).2.2) (selDur (selProfile cfg q).2.2) with
-  | none => simp [estimatedOfExisting, hm] at he
-  | some me =>
-    obtain ⟨m', est⟩ := me
-    have hmm : m' = m := by
-      unfold estimatedOfExisting at he
-      simp only [hm] at he
-      split at he
-      · simp at he; exact he.1.symm
-      · split at he <;> (simp at he; exact he.1.symm)
-    subst hmm
-    exact ⟨est, rfl, filter_pass_within cfg _ q m' est hn hd ht he hx hi hpass⟩
+  obtain ⟨est, he⟩ := existing_some cfg ((run cfg evs).get q.node) (selProfile cfg q).1 (selTyp (selProfile cfg q).2.2) (selDur (selProfile cfg q).2.2) m hm
+  exact ⟨est, he, filter_pass_within cfg _ q m est hn hd ht he hx hi hpass⟩
 
 /-! ### non-vacuity -/
 
